@@ -5,6 +5,7 @@ import (
 	"context"
 	"fmt"
 	"github.com/thushan/olla/internal/adapter/proxy/olla"
+	"github.com/thushan/olla/internal/adapter/registry"
 	"io"
 	"net/http"
 	"sort"
@@ -45,6 +46,7 @@ type stack interface {
 	settle()
 	apply()
 	stop()
+	reg() domain.ModelRegistry
 }
 
 type wiredStack struct{ w *world.Wired }
@@ -63,9 +65,10 @@ func (s *wiredStack) setStatus(name string, healthy bool) {
 func (s *wiredStack) discover(name string) error {
 	return s.w.Disc.DiscoverEndpoint(s.w.Ctx(), s.w.Endpoint(name))
 }
-func (s *wiredStack) settle() { settleRegistry(s.w.Ctx(), s.w.Reg) }
-func (s *wiredStack) stop()   { s.w.Stop() }
-func (s *wiredStack) apply()  {}
+func (s *wiredStack) settle()                   { settleRegistry(s.w.Ctx(), s.w.Reg) }
+func (s *wiredStack) stop()                     { s.w.Stop() }
+func (s *wiredStack) apply()                    {}
+func (s *wiredStack) reg() domain.ModelRegistry { return s.w.Reg }
 
 func settleRegistry(ctx context.Context, r domain.ModelRegistry) {
 	type um interface {
@@ -228,6 +231,60 @@ func runCfg(run *rep.Run, c cfg, id int) {
 				}
 				oneCase(run, c, st, hc, backs, N, H, L, v.route, v.spelling, v.model, fmt.Sprintf("c%dn%d", id, caseN))
 			}
+		}
+	}
+	if c.Strategy == "strict" {
+		aliasByDigest(run, c, st, hc, backs, N, id)
+	}
+}
+
+// aliasByDigest: e0 lists phi4:latest, e1 lists phi4:14b, both with one digest, so the catalogue
+// makes one model of them and each name is an alias of the other's. "Whose latest listing
+// contains M (by native name, unified id or alias)": both are holders of both names.
+func aliasByDigest(run *rep.Run, c cfg, st stack, hc *http.Client, backs []*backend.Std, N, id int) {
+	tags := func(name, filler string) []byte {
+		return []byte(fmt.Sprintf(`{"models":[{"name":%q,"model":%q,"size":9053116391,"digest":"sha256:ac896e5b8b34a1f4efa7b14d7520725140d5512484457fab45d2a4ea14c69dba","details":{"family":"phi3","format":"gguf","parameter_size":"14.7B","quantization_level":"Q4_K_M"}},{"name":%q,"model":%q,"size":1,"digest":"sha256:%x"}]}`, name, name, filler, filler, filler))
+	}
+	for i, b := range backs {
+		st.setStatus(b.Name, true)
+		switch i {
+		case 0:
+			b.SetModelsRaw(200, tags("phi4:latest", "filler-"+b.Name))
+		case 1:
+			b.SetModelsRaw(200, tags("phi4:14b", "filler-"+b.Name))
+		default:
+			b.SetModels([]string{"filler-" + b.Name})
+		}
+	}
+	for _, b := range backs {
+		if err := st.discover(b.Name); err != nil {
+			run.Inconclusive("discovery failed: " + err.Error())
+		}
+	}
+	st.settle()
+	defer func() {
+		for _, b := range backs {
+			b.SetModels([]string{"filler-" + b.Name})
+		}
+	}()
+	ur, ok := st.reg().(*registry.UnifiedMemoryModelRegistry)
+	if !ok {
+		return
+	}
+	um, err := ur.GetUnifiedModel(context.Background(), "phi4:latest")
+	if err != nil || um == nil || len(um.SourceEndpoints) < 2 {
+		run.Count("alias_scenario_not_unified", 1) // the premise does not hold: nothing to judge
+		return
+	}
+	run.Count("alias_scenarios", 1)
+	for H := 0; H < 1<<N; H++ {
+		for i, b := range backs {
+			st.setStatus(b.Name, H&(1<<i) != 0)
+		}
+		st.apply()
+		for mi, model := range []string{"phi4:latest", "phi4:14b"} {
+			oneCase(run, c, st, hc, backs, N, H, 3, "proxy", "exact+alias-by-digest", model, fmt.Sprintf("c%dal%dm%d", id, H, mi))
+			run.Count("alias_cases", 1)
 		}
 	}
 }
